@@ -91,6 +91,10 @@ def _tr(seq, at_end, at_start=True):
                 if not last:
                     raise NotImplementedError("$ not at end")
                 out.append(z3.Option(NL))
+            elif av is sc.AT_END_STRING:
+                if not last:
+                    raise NotImplementedError("\\Z not at end")
+                # \Z: the end of the string and nothing else (no optional final newline)
             else:
                 raise NotImplementedError("anchor %r" % (av,))
         elif op is sc.SUBPATTERN:
@@ -121,7 +125,7 @@ def _ends_anchored(parsed):
     if not items:
         return False
     op, av = items[-1]
-    if op is sc.AT and av is sc.AT_END:
+    if op is sc.AT and av in (sc.AT_END, sc.AT_END_STRING):
         return True
     if op is sc.SUBPATTERN:
         return _ends_anchored(av[3])
